@@ -29,8 +29,9 @@ def cases(draw, nums):
     if rational and draw(st.integers(0, 3)) == 0:
         # rational curves of degree 4 (the quotient rule then multiplies polynomials of degree 8): few knots
         c = draw(gen.curves(4, 4, 1, nums=nums, rational=True, regimes=False))
-        return {"curve": c, "history": None}
+        return {"curve": draw(gen.weight_magnitude(c, wide=True)), "history": None}
     c = draw(gen.curves(0, 3 if rational else 4, 3 if rational else 4, nums=nums, rational=rational))
+    c = draw(gen.weight_magnitude(c, wide=True))  # weights are homogeneous: the derivative does not depend on their common factor
     return {"curve": c, "history": draw(st.sampled_from(lib.HISTORY_MODES))}
 
 
